@@ -14,41 +14,4 @@ theorem honours_default (b : PyExpr) (attrs : String → Nat) :
     (PyExpr.or .arg b).eval attrs .none = b.eval attrs .none := by
   simp [PyExpr.eval, PyVal.truthy]
 
-/-- the episode ends at the latest at step `T` … -/
-theorem firstLast_le (other : Nat → Bool) (T : Nat) (fuel t : Nat) (hT : t < T) (hf : T ≤ t + fuel) :
-    ∃ k, firstLast other T fuel t = some k ∧ t < k ∧ k ≤ T := by
-  induction fuel generalizing t with
-  | zero => omega
-  | succ f ih =>
-    unfold firstLast
-    by_cases hc : (other (t+1) || decide (t+1 ≥ T)) = true
-    · rw [if_pos hc]; exact ⟨t+1, rfl, by omega, by omega⟩
-    · rw [if_neg hc]
-      have hlt : t + 1 < T := by
-        simp at hc; omega
-      obtain ⟨k, hk, h1, h2⟩ := ih (t+1) hlt (by omega)
-      exact ⟨k, hk, by omega, h2⟩
-
-/-- … and exactly at step `T` when nothing else ends it before -/
-theorem firstLast_eq (other : Nat → Bool) (T : Nat) (fuel t : Nat) (hT : t < T) (hf : T ≤ t + fuel)
-    (hno : ∀ k, t < k → k < T → other k = false) :
-    firstLast other T fuel t = some T := by
-  induction fuel generalizing t with
-  | zero => omega
-  | succ f ih =>
-    unfold firstLast
-    by_cases hlast : t + 1 = T
-    · have : (other (t+1) || decide (t+1 ≥ T)) = true := by simp; right; omega
-      rw [if_pos this, hlast]
-    · have hlt : t + 1 < T := by omega
-      have : (other (t+1) || decide (t+1 ≥ T)) = false := by
-        simp [hno (t+1) (by omega) hlt]; omega
-      rw [this]
-      simp only [Bool.false_eq_true, if_false]
-      exact ih (t+1) hlt (by omega) (fun k h1 h2 => hno k (by omega) h2)
-
-/-- with a strict comparison (`>`), the episode would end one step late -/
-theorem strict_cmp_is_late (T : Nat) (hT : 0 < T) :
-    (if decide (T > T) then some T else none : Option Nat) = none := by simp
-
 end TL
